@@ -35,4 +35,14 @@ def conditions(tier, seed):
                             symbolic=['v0', 'v1 (identifying values, unbounded ints)'],
                             case_split=['ci = index into the table of all (link matrices, liveness, association, operand pair) cases'],
                             twin=(op in ('relate_st', 'delete_t', 'new'))))
+    # cross-check of the induction argument: complete histories from the empty model
+    for sh in ['1C_MC', '1C_1C', 'refl', 'refl_M']:
+        k = 3 if tier == 'quick' else 4
+        ns = 8 if tier == 'quick' else 64
+        picks = list(range(ns))
+        for p in picks:
+            out.append(Cond('history%d_%s_s%d' % (k, sh, p), 'c02_hist.py', dict(shape=sh, op='relate_st', pool=2, k=k, shard=p, nshards=ns),
+                            timeout=600 if tier == 'quick' else 2400,
+                            bound='shape %s: every history of %d calls out of 16 (relate both orders, unrelate, delete) on 2+2 instances, state checked after every step (shard %d/%d)' % (sh, k, p, ns),
+                            case_split=['si (history)'], twin=(p == picks[0])))
     return out
